@@ -62,6 +62,8 @@ pub struct AppSpec {
     pub geom_repeat: bool,
     /// every fourth edge (e % 4 == 1) is stored as a linestring of a single point (a zero-length connector)
     pub geom_single: bool,
+    /// the positional tables of the output plugins (geometries, identifiers) end their rows with CR LF
+    pub crlf: bool,
     /// every fifth edge's stored linestring runs against the edge (digitised the other way round): renderings keep
     /// stored geometries as they are
     pub geom_reversed: bool,
@@ -106,6 +108,7 @@ impl AppSpec {
             geom_truncate: 0,
             geom_repeat: false,
             geom_single: false,
+            crlf: false,
             geom_reversed: false,
             uuid_blanks: false,
             matcher_classes: None,
@@ -476,6 +479,7 @@ pub fn write_config(spec: &AppSpec, dir: &Path) -> std::io::Result<(PathBuf, Str
             let pts: Vec<String> = edge_geometry(spec, e).iter().map(|(x, y)| format!("{:?} {:?}", x, y)).collect();
             s.push_str(&format!("LINESTRING ({})\n", pts.join(", ")));
         }
+        let s = if spec.crlf { s.replace('\n', "\r\n") } else { s };
         write_text(&geom_path, &s, spec.gzip)?;
     }
     for p in &spec.input_plugins {
@@ -531,8 +535,10 @@ pub fn write_config(spec: &AppSpec, dir: &Path) -> std::io::Result<(PathBuf, Str
                 tree.as_ref().map(|r| format!(", tree = \"{r}\"")).unwrap_or_default()
             )),
             OutputPlugin::Uuid => {
-                let p = dir.join("uuids.txt");
-                files.push((p.clone(), (0..net.nv()).map(|v| uuid_for(spec, v)).collect::<Vec<_>>().join("\n") + "\n"));
+                // the identifier table follows the application's compression and line-ending choice
+                let p = dir.join(format!("uuids.txt{ext}"));
+                let body = (0..net.nv()).map(|v| uuid_for(spec, v)).collect::<Vec<_>>().join("\n") + "\n";
+                write_text(&p, &if spec.crlf { body.replace('\n', "\r\n") } else { body }, spec.gzip)?;
                 outs.push(format!("{{ type = \"uuid\", uuid_input_file = {} }}", tstr(p.to_str().unwrap_or(""))));
             }
         }
